@@ -29,7 +29,7 @@ theorem tokenMatchingFwd_go_spec (f : Node → Bool) (stop : Nat) :
         | tail _ hy => exact hpre y hy
 
 /-- forward search: the hit is at or after `start`, in range, satisfies `f`, and nothing in between does -/
-theorem tokenMatchingFwd_spec {ks : List Node} {f : Node → Bool} {start : Nat} {stop : Option Nat} {j : Nat} {k : Node}
+theorem tokenMatchingFwd_hit {ks : List Node} {f : Node → Bool} {start : Nat} {stop : Option Nat} {j : Nat} {k : Node}
     (h : tokenMatchingFwd ks f start stop = some (j, k)) :
     start ≤ j ∧ ks[j]? = some k ∧ f k = true ∧ ∀ i x, start ≤ i → i < j → ks[i]? = some x → f x = false := by
   unfold tokenMatchingFwd at h
@@ -70,17 +70,17 @@ theorem tokenMatchingRev_spec {ks : List Node} {f : Node → Bool} {start j : Na
   exact ⟨by omega, h2, h3⟩
 
 /-- `token_next(idx)`: the hit is strictly after `idx`, and everything strictly between is whitespace -/
-theorem tokenNext_spec {ks : List Node} {idx n : Nat} {k : Node} (h : tokenNext ks idx = some (n, k)) :
+theorem tokenNext_hit {ks : List Node} {idx n : Nat} {k : Node} (h : tokenNext ks idx = some (n, k)) :
     idx < n ∧ ks[n]? = some k ∧ ∀ i x, idx < i → i < n → ks[i]? = some x → x.isWhitespace = true := by
   unfold tokenNext at h
-  obtain ⟨h1, h2, _, h4⟩ := tokenMatchingFwd_spec h
+  obtain ⟨h1, h2, _, h4⟩ := tokenMatchingFwd_hit h
   refine ⟨by omega, h2, ?_⟩
   intro i x hi hin hx
   have := h4 i x (by omega) hin hx
   simpa [skipMatcher] using this
 
 /-- `token_prev(idx)` (any flags): the hit is strictly before `idx` -/
-theorem tokenPrev_spec {ks : List Node} {idx p : Nat} {k : Node} {ws cm : Bool}
+theorem tokenPrev_hit {ks : List Node} {idx p : Nat} {k : Node} {ws cm : Bool}
     (h : tokenPrev ks idx ws cm = some (p, k)) : p < idx ∧ ks[p]? = some k := by
   unfold tokenPrev at h
   obtain ⟨h1, h2, _⟩ := tokenMatchingRev_spec h
@@ -106,7 +106,7 @@ theorem tokenNextBy_spec {upper : Text → Text} {ks : List Node} {i : List Cls}
     (h : tokenNextBy upper ks i m t start stop = some (j, k)) :
     start ≤ j ∧ ks[j]? = some k ∧ imt upper k i m t = true := by
   unfold tokenNextBy at h
-  obtain ⟨h1, h2, h3, _⟩ := tokenMatchingFwd_spec h
+  obtain ⟨h1, h2, h3, _⟩ := tokenMatchingFwd_hit h
   exact ⟨h1, h2, h3⟩
 
 end Sql
@@ -157,6 +157,43 @@ theorem tokenNextBy_first {upper : Text → Text} {ks : List Node} {i : List Cls
     {start j : Nat} {k : Node} (h : tokenNextBy upper ks i m t start = some (j, k)) :
     ∀ j' x, start ≤ j' → j' < j → ks[j']? = some x → imt upper x i m t = false := by
   unfold tokenNextBy at h
-  exact (tokenMatchingFwd_spec h).2.2.2
+  exact (tokenMatchingFwd_hit h).2.2.2
+
+end Sql
+
+namespace Sql
+
+theorem tokenMatchingRev_go_between (ks : List Node) (f : Node → Bool) :
+    ∀ (n j : Nat) (k : Node), tokenMatchingRev.go ks f n = some (j, k) →
+      ∀ j' x, j < j' → j' < n → ks[j']? = some x → f x = false := by
+  intro n
+  induction n with
+  | zero => intro j k h; simp [tokenMatchingRev.go] at h
+  | succ n ih =>
+    intro j k h j' x hj hj' hx
+    simp only [tokenMatchingRev.go] at h
+    split at h
+    · rename_i y hy
+      split at h
+      · simp only [Option.some.injEq, Prod.mk.injEq] at h
+        omega
+      · rename_i hf
+        by_cases hn : j' = n
+        · subst hn
+          rw [hy] at hx; cases hx
+          simpa using hf
+        · exact ih _ _ h j' x hj (by omega) hx
+    · rename_i hy
+      by_cases hn : j' = n
+      · subst hn; rw [hx] at hy; cases hy
+      · exact ih _ _ h j' x hj (by omega) hx
+
+/-- everything strictly between the hit of `token_prev(idx)` and `idx` is whitespace -/
+theorem tokenPrev_between {ks : List Node} {idx p : Nat} {k : Node} (h : tokenPrev ks idx = some (p, k)) :
+    ∀ j x, p < j → j < idx → ks[j]? = some x → x.isWhitespace = true := by
+  intro j x hj hj' hx
+  unfold tokenPrev tokenMatchingRev at h
+  have := tokenMatchingRev_go_between ks _ _ _ _ h j x hj (by omega) hx
+  simpa [skipMatcher] using this
 
 end Sql
